@@ -159,11 +159,18 @@ def mat(name, r=N, c=N):
     return I.NDArr.syms(name, (r, c))
 
 
-def _guard(ctx, tag, where, thunk):
+def _guard(ctx, tag, where, thunk, partial=False):
     """run an evaluation; a Python exception of the analysed code on a valid configuration is a violation, a construct outside the
-    interpreter's subset an analysis error"""
+    interpreter's subset an analysis error.  With `partial`, an evaluation that outgrows the formula budget returns ("partial", reason):
+    the caller decides on what had been stored until then (formulas explode only when an operation of the recurrence is not the
+    documented one, so the first stored step normally already contradicts the documentation)"""
     try:
         return True, thunk()
+    except I.TooLarge as e:
+        if partial:
+            return "partial", str(e)
+        ctx.error(f"{tag}: evaluation", where, str(e))
+        return False, None
     except I.PyRaise as e:
         if e.genuine:
             ctx.fail(f"{tag}: runs on a valid configuration without raising", where, str(e))
@@ -187,7 +194,7 @@ class NLTerms:
     """two nonlinear force terms {key: (function, transform, optional arguments)}; the functions are opaque: every call is recorded with a
     snapshot of the displacement array it sees and returns the symbols z<k>_<j>"""
 
-    def __init__(self, with_T=True):
+    def __init__(self):
         self.funcs = [I.Opaque("nl0", inert=True), I.Opaque("nl1", inert=True)]
         self.keys = ["k0", "k1"]
         self.T = [mat("T0", N, NZ), mat("T1", N, NZ)]
@@ -287,11 +294,15 @@ def r2_code_equals_documentation(ctx):
             else:
                 mm = m
             me = I.Obj(it.cls(NM, "SolveNewmark"), "self", h=H, m=None if m_none else m, b=b, k=k, unc=unc, ksize=N)
+            me.absent.update({"Ad", "A0", "A1"})         # this method creates them
             ok, _ = _guard(ctx, tag, fn, lambda: it.call_method(me, "_newmark_precalcs"))
             if not ok:
                 continue
             want = {key: I.NDArr.new(shape, [_doc_entry(docs[key], x, y, z) for x, y, z in zip(mm.flat(), b.flat(), k.flat())])
                     for key in ("A", "A_1", "A_0")}
+            if unc and not m_none:
+                ok = me.attrs.get("nonlin_terms") == 0 and me.attrs.get("pc") is not None and it.truth(me.attrs.get("pc")) is True
+                ctx.check(ok, f"{tag}: a new solver has no nonlinear terms (nonlin_terms = 0) and is marked ready for time-domain allocation", fn)
             Ad = me.attrs.get("Ad")
             Amat = Ad.mat if isinstance(Ad, I.LU) else Ad
             ok = isinstance(Amat, I.NDArr) and _eq(Amat, want["A"]) and (unc or isinstance(Ad, I.LU))
@@ -337,6 +348,7 @@ def _r2_startup(ctx, docs):
         for nonlin in (False, True):
             _startup_case(ctx, ini, du, unc, nonlin)
     _startup_case(ctx, ini, du, UNC_F, False, ic=False)
+    _startup_case(ctx, ini, du, CPL, False, ic="v0")
     for unc in (UNC_F, CPL):
         _startup_case(ctx, ini, du, unc, False, rf="trailing")
         _startup_case(ctx, ini, du, unc, False, rf="interleaved")
@@ -348,10 +360,12 @@ def _ivec(*idx):
 
 def _startup_case(ctx, ini, du, unc, nonlin, ic=True, rf=None):
     how = {None: "", "trailing": ", one trailing rf mode (slice partitions)", "interleaved": ", one interleaved rf mode (index-vector partitions)"}[rf]
-    tag = f"SolveNewmark._init_dva ({_cfg(unc, nonlin)}{'' if ic else ', no initial conditions given'}{how})"
+    ictxt = {True: "", False: ", no initial conditions given", "v0": ", only v0 given"}[ic]
+    tag = f"SolveNewmark._init_dva ({_cfg(unc, nonlin)}{ictxt}{how})"
     terms = NLTerms() if nonlin else None
     it = I.Interp(ctx, on_opaque=terms.hook if terms else None)
     me = _nm_self(it, unc, terms)
+    me.absent.add("z")                                   # a fresh instance: the nonlinear start-up creates it
     ntot = N + 1 if rf else N
     K_, RF_ = slice(0, N), slice(N, ntot)
     if rf:
@@ -361,7 +375,7 @@ def _startup_case(ctx, ini, du, unc, nonlin, ic=True, rf=None):
             me.attrs.update(slices=False)
         me.attrs.update(n=ntot, rfsize=1, rf=RF_, nonrf=K_, kdof=K_, el=K_, ikrf=ikrf if unc else I.LU(inv=ikrf))
     f = mat("f", ntot, NT)
-    d0f, v0f = (vec("d0", ntot), vec("v0", ntot)) if ic else (None, None)
+    d0f, v0f = (vec("d0", ntot) if ic is True else None), (vec("v0", ntot) if ic else None)
     ok, res = _guard(ctx, tag, ini, lambda: it.call_method(me, "_init_dva", f, d0f, v0f))
     if not ok:
         return
@@ -373,7 +387,7 @@ def _startup_case(ctx, ini, du, unc, nonlin, ic=True, rf=None):
         ctx.fail(f"{tag}: d, v, a have one row per equation and one column per time step", ini, (d.shape, v.shape, a.shape))
         return
     zero = I.NDArr.full((N,), F.const(0))
-    d0, v0 = (d0f[K_], v0f[K_]) if ic else (zero, zero)
+    d0, v0 = (d0f[K_] if d0f is not None else zero), (v0f[K_] if v0f is not None else zero)
     fk = f[K_]
     K, B, A1, A0 = (me.attrs[x] for x in ("k", "b", "A1", "A0"))
     mul, inva = _mul(unc), _inv_a(me, unc)
@@ -430,6 +444,7 @@ class TsolveRun:
         self.Fs = mat("F", N, NT)
 
         def init_dva(it_, args, kwargs):
+            self.init_args = (list(args), dict(kwargs))
             for col, val in ((0, self.u0), (1, self.u1)) + (((NT - 1, self.um1),) if nonlin else ()):
                 for r in range(N):
                     self.d.st.data[self.d.ix[r * NT + col]] = val.flat()[r]
@@ -454,13 +469,32 @@ class TsolveRun:
         me.overrides["_solution"] = solution
         self.sol = None
         self.sol_args = None
+        self.partial = None       # reason when the evaluation was cut off by the formula budget
 
     def run(self):
-        self.sol = self.it.call_method(self.me, "tsolve", mat("force", N, NT), vec("d0"), vec("v0"))
+        self.inputs = (mat("force", N, NT), vec("d0"), vec("v0"))
+        self.sol = self.it.call_method(self.me, "tsolve", *self.inputs)
         return self
+
+    def init_args_ok(self):
+        """_init_dva(force, d0, v0) receives the force history and the initial conditions of tsolve, each in its place"""
+        if getattr(self, "init_args", None) is None:
+            return False
+        fn = self.it.method(self.me.cls, "_init_dva")
+        try:
+            env = self.it.bind(fn, [None] + self.init_args[0], self.init_args[1])
+        except I.PyRaise:
+            return False
+        f, d0, v0 = self.inputs
+        return isinstance(env.get("force"), I.NDArr) and _eq(env["force"], f) and env.get("d0") is d0 and env.get("v0") is v0
 
     def N(self, j):
         return self.terms.force(j) if self.nonlin else 0
+
+    def written(self, j):
+        """has tsolve stored every entry of displacement column j?"""
+        done = {i for _, i, _, _ in self.d.st.log}
+        return all(self.d.ix[r * NT + j] in done for r in range(N))
 
     def De(self):
         """the displacement of the extra step as the code used it for the last velocity: V_last = (De - u_nt-2)/(2h)"""
@@ -482,8 +516,10 @@ def _tsolve_runs(ctx):
         if True:
             tag = f"tsolve ({_cfg(unc, nonlin)}{', index-vector partition' if ip else ''})"
             r = TsolveRun(ctx, unc, nonlin, ip)
-            ok, _ = _guard(ctx, tag, fn, r.run)
-            if ok:
+            ok, why = _guard(ctx, tag, fn, r.run, partial=not ip)
+            if ok == "partial":
+                r.partial = why
+            elif ok:
                 ok = isinstance(r.sol, I.Obj) and r.sol_args is not None and len(r.sol_args) >= 3 and \
                     all(x is y for x, y in zip(r.sol_args[:3], (r.d, r.v, r.a)))
                 if not ok:
@@ -515,8 +551,24 @@ def r1_four_branch_agreement(ctx):
         tag = f"tsolve ({_cfg(unc, nonlin)})"
         mul = _mul(unc)
         A1, A0, Fs, d = r.me.attrs["A1"], r.me.attrs["A0"], r.Fs, r.d
-        ok = _eq(d[:, 0], r.u0) and _eq(d[:, 1], r.u1)
-        ctx.check(ok, f"{tag}: the displacements of the start-up step (columns 0 and 1) are kept", fn)
+        if r.partial:
+            # the evaluation was cut off: decide on the steps that had been stored
+            bad = None
+            for j in range(2, NT):
+                if not r.written(j):
+                    break
+                want = Fs[:, j] + Fs[:, j - 1] + Fs[:, j - 2] + r.N(j - 1) + mul(A1, d[:, j - 1]) + mul(A0, d[:, j - 2])
+                if not _eq(d[:, j], want):
+                    bad = {"step": j, "code": _show(d[:, j]), "documented": _show(want)}
+                    break
+            if bad:
+                ctx.fail(f"{tag}: u_j = F_j + F_j-1 + F_j-2 {'+ N_j-1 ' if nonlin else ''}+ A1 u_j-1 + A0 u_j-2 for every step j >= 2 "
+                         "(forces already scaled by inv(A)/3: the documented recurrence)", fn, bad)
+            else:
+                ctx.error(f"{tag}: evaluation", fn, r.partial)
+            continue
+        ok = _eq(d[:, 0], r.u0) and _eq(d[:, 1], r.u1) and r.init_args_ok()
+        ctx.check(ok, f"{tag}: the start-up step gets (force, d0, v0) and its displacements (columns 0 and 1) are kept", fn)
         bad = None
         for j in range(2, NT):
             want = Fs[:, j] + Fs[:, j - 1] + Fs[:, j - 2] + r.N(j - 1) + mul(A1, d[:, j - 1]) + mul(A0, d[:, j - 2])
@@ -534,7 +586,7 @@ def r1_four_branch_agreement(ctx):
                   None if ok else {"code": _show(r.De()), "documented": _show(want)})
     base = runs.get((UNC_F, False))
     for key, r in runs.items():
-        if key == (UNC_F, False) or r is None or base is None:
+        if key == (UNC_F, False) or r is None or base is None or r.partial or base.partial:
             continue
         unc, nonlin = key
         mp = {}
@@ -554,7 +606,7 @@ def r1_four_branch_agreement(ctx):
         ctx.check(same, f"tsolve: the {'uncoupled' if unc else 'coupled'}/{'nonlinear' if nonlin else 'linear'} arm is the uncoupled linear arm "
                         "(diagonal coefficient matrices, vanishing nonlinear terms)", fn)
     rs = runs.get((UNC_F, True))
-    if ri is not None and rs is not None:
+    if ri is not None and rs is not None and not rs.partial:
         same = _eq(ri.d, rs.d) and _eq(ri.v, rs.v) and _eq(ri.a, rs.a)
         ctx.check(same, "tsolve: with index-vector partitions (d[kdof] is a copy) the same d, v, a reach the solution as with slice partitions", fn)
     runs[(UNC_F, True, "index")] = ri
@@ -562,7 +614,7 @@ def r1_four_branch_agreement(ctx):
 
 def r3_differences(ctx):
     fn, runs = _tsolve_runs(ctx)
-    live = {k: r for k, r in runs.items() if r is not None and len(k) == 2}
+    live = {k: r for k, r in runs.items() if r is not None and len(k) == 2 and not r.partial}
     if not live:
         return
     h2, sqh = 2 * H, H * H
@@ -833,7 +885,9 @@ def r5_implicit_update(ctx):
             return pc
         it = I.Interp(ctx, stubs={"pyyeti.ode._utilities.get_su_coef": su_coef, "get_su_coef": su_coef})
         me = I.Obj(it.cls(UNC, "SolveUnc"), "self", ksize=n, unc=True, systype=I.FLOAT, cdforces=True, bo=bo, m=vec("m", n), b=vec("b", n),
-                   k=vec("k", n), _rb=I.Opaque("_rb"), h=H)
+                   k=vec("k", n), _rb=I.Opaque("_rb"), _el=I.Opaque("_el"), rb=I.Opaque("rb"), el=I.Opaque("el"), h=H, n=n, rfsize=0, nonrfsz=n,
+                   pre_eig=False, rf=slice(0, 0), nonrf=slice(None), kdof=slice(None))
+        me.absent.update({"pc", "order"})                # __init__ creates them
         for nm in ("_common_precalcs", "_inv_m", "_mk_slices", "get_su_eig"):
             me.overrides[nm] = lambda it_, args, kwargs: None
         ok, _ = _guard(ctx, tag, init, lambda: it.call_method(me, "__init__", vec("m", n), vec("b", n), vec("k", n), H, cd_as_force=True))
@@ -867,12 +921,20 @@ def r5_implicit_update(ctx):
             d.st.data[d.ix[r * nt]] = q0.flat()[r]
             v.st.data[v.ix[r * nt]] = qd0.flat()[r]
         f = mat("f", N, nt)
-        ok, _ = _guard(ctx, tag, fn, lambda: it.call_method(me, "_solve_real_unc_cdforces", d, v, f))
+        ok, why = _guard(ctx, tag, fn, lambda: it.call_method(me, "_solve_real_unc_cdforces", d, v, f), partial=True)
         if not ok:
             continue
         c = pc.attrs
         good_v = good_d = True
-        for i in range(nt - 1):
+        steps = nt - 1
+        if ok == "partial":
+            # cut off by the formula budget: decide on the first step if it had been stored
+            done_d, done_v = {i for _, i, _, _ in d.st.log}, {i for _, i, _, _ in v.st.log}
+            if not all(d.ix[r * nt + 1] in done_d and v.ix[r * nt + 1] in done_v for r in range(N)):
+                ctx.error(f"{tag}: evaluation", fn, why)
+                continue
+            steps = 1
+        for i in range(steps):
             di, vi, V1, D1 = d[:, i], v[:, i], v[:, i + 1], d[:, i + 1]
             f0 = f[:, i]
             f1 = f[:, i + 1] if order == 1 else f[:, i]
@@ -887,6 +949,10 @@ def r5_implicit_update(ctx):
             else:
                 good_v = good_v and _eq(V1, rhs_v)
                 good_d = good_d and _eq(D1, rhs_d)
+        if ok == "partial":
+            if all(o.status == "ok" for o in ctx.obls[-2:]):
+                ctx.error(f"{tag}: evaluation", fn, why)
+            continue
         ctx.check(good_v and good_d, f"{tag}: the next step starts from the stored displacement and velocity and the damping force carried over is C_od V1 "
                                      "(the same equations hold for the second step)", fn)
 
@@ -900,7 +966,7 @@ def r6_typing(ctx):
 
 RULES = [
     ("C17-R1", r1_four_branch_agreement, 16),
-    ("C17-R2", r2_code_equals_documentation, 45),
+    ("C17-R2", r2_code_equals_documentation, 49),
     ("C17-R3", r3_differences, 9),
     ("C17-R4", r4_cdf_equals_unc_on_diagonal, 7),
     ("C17-R5", r5_implicit_update, 8),
